@@ -50,7 +50,7 @@ ASSUMPTIONS = [
     'notes are generated without annobin/stapsdt owners, RELR sections are not displayed by the clone, core-file notes live in '
     'segments the clone does not print: files with those features are skipped for the option concerned',
 ]
-KINDS = {'corpus': (288, 1011, 0), 'system': (22, 64, 1), 'compiled': (30, 68, 1), 'descr': (64, 64, 2), 'dwdescr': (40, 40, 1), 'generated': (260, 2600, 4)}
+KINDS = {'corpus': (288, 1011, 0), 'system': (22, 64, 1), 'compiled': (30, 71, 1), 'descr': (64, 64, 2), 'dwdescr': (40, 40, 1), 'generated': (260, 2600, 4)}
 FLOOR = {'quick': 150, 'thorough': 600}
 CASE_TIMEOUT = 1200
 OPTIONS = ['-e', '-d', '-s', '-n', '-r', '-x.text', '-p.shstrtab', '-V', '--debug-dump=info', '--debug-dump=decodedline',
@@ -352,7 +352,10 @@ OTHER_CFG = [('g++', 'c.cpp', ['-gdwarf-%d' % v, o, '-fPIC', '-c'], 'g++-dwarf%d
      ('gcc', 'big.c', ['-gdwarf-4', '-O1', '-fno-eliminate-unused-debug-types', '-c'], 'gcc-big-dwarf4.o'),
      ('gcc', 'big.c', ['-gdwarf-5', '-O1', '-fno-eliminate-unused-debug-types', '-c'], 'gcc-big-dwarf5.o'),
      ('g++', 'big.cpp', ['-gdwarf-4', '-O1', '-c'], 'g++-big-dwarf4.o'), ('g++', 'big.cpp', ['-gdwarf-5', '-O2', '-c'], 'g++-big-dwarf5.o'),
-     ('g++', 'big.cpp', ['-gdwarf-4', '-O1'], 'g++-big-exe-dwarf4')]
+     ('g++', 'big.cpp', ['-gdwarf-4', '-O1'], 'g++-big-exe-dwarf4'),
+     # programs of other front ends, linked with their run-time libraries (the Rust one carries the debug info of std: ~470000 lines)
+     ('rustc', 'main.rs', ['-g'], 'rustc-exe'), ('gfortran', 'fmain.f90', ['-g', '-O1'], 'gfortran-exe'),
+     ('clang++', ('mm.cpp', 'c.cpp'), ['-g', '-O1', '-gdwarf-4'], 'clang++-exe-dwarf4')]
 
 
 def run_compiled(idx, rng, sh):
